@@ -165,6 +165,7 @@ def load(debug_assertions=False, tests=False):
         F.debug_assertions = bool(debug_assertions)
         canonnames.apply(F)      # renamed variables get the names of the reviewed tree back (tables/known_locals.json)
         canonnames.rename_fields(F)
+        canonnames.normalize_int_conversions(F)
         from . import inline
         inline.apply(F)          # new private helpers (not in tables/known_functions.json) are spliced into their callers
         _cache[key] = F
